@@ -227,7 +227,12 @@ def selection_histories(M, rec, rng, n_hist):
                     if nm == "numpy" and rng.random() < 0.5:
                         kw = {"var_type": rng.choice(("rand", "randn", "empty"))}
                     try:
-                        r = E.use(nm, **kw)
+                        # the engine's own options travel through use() by keyword or positionally
+                        if kw and rng.random() < 0.5:
+                            r = E.use(nm, *kw.values())
+                            rec.count("selections_by_name_with_positional_engine_options")
+                        else:
+                            r = E.use(nm, **kw)
                     except Exception as e:
                         rec.violation(f"{PROP}:use('{nm}') refused a valid engine name ({type(e).__name__})",
                                       {"history": hist, "exception": repr(e)[:200]})
